@@ -95,6 +95,34 @@ def _single_plain_literal(text, expr):
     return len(toks) == 1 and toks[0].type == pytokenize.STRING
 
 
+def _has_fstring_backslash_brace(text):
+    """reference tokens (CPython tokenize): an f-string whose source has a backslash directly before a brace"""
+    try:
+        toks = list(pytokenize.generate_tokens(io.StringIO(text).readline))
+    except Exception:
+        return False
+    fstart = getattr(pytokenize, 'FSTRING_START', None)
+    fend = getattr(pytokenize, 'FSTRING_END', None)
+    lines = text.split('\n')
+    depth, start = 0, None
+    for t in toks:
+        if t.type == pytokenize.STRING:
+            pre = t.string[:3].lower().split('"')[0].split("'")[0]
+            if 'f' in pre and ('\\{' in t.string or '\\}' in t.string):
+                return True
+        elif fstart is not None and t.type == fstart:
+            if depth == 0:
+                start = t.start
+            depth += 1
+        elif fend is not None and t.type == fend:
+            depth -= 1
+            if depth == 0 and start is not None:
+                seg = '\n'.join(lines[start[0] - 1:t.end[0]])
+                if '\\{' in seg or '\\}' in seg:
+                    return True
+    return False
+
+
 def judge(ctx, text, origin):
     import parso
     if '\r' in text.replace('\r\n', '') or '\f' in text or text.startswith('﻿'):
@@ -126,10 +154,14 @@ def judge(ctx, text, origin):
     text_lines = parso.split_lines(text)
     seen_kinds = set()
 
+    fsbb = []
+
     def note(kind, msg, **detail):
         if kind not in seen_kinds:
             seen_kinds.add(kind)
-            ctx.violation(kind, msg, w, **detail)
+            if not fsbb:
+                fsbb.append(_has_fstring_backslash_brace(text))
+            ctx.violation(kind, msg, w, fstring_backslash_brace=fsbb[0], **detail)
 
     def P(node):
         return (node.lineno, _col(text_lines, node.lineno, node.col_offset))
